@@ -1525,24 +1525,85 @@ def metadata (m : Module) : Except Err Metadata := do
 /-! ## runtime/bytecode.rs — applying a container to a runtime
 
 The runtime is seen through `RtView`: the names of its programs, its globals and instances at the
-level `validate_task` looks at them (is the value an instance? of a registered function block?).
-Values that are not instances are opaque (`other`); the harness uses runtimes without
-struct/array variables, where a non-empty path never resolves. -/
+level `validate_task` looks at them (is the value an instance? of a registered function block?),
+and the shape of its array / struct values (bounds, elements, field names), because the `Index` /
+`Field` segments of a task's FB references are followed through them (`memory.rs`,
+`read_by_ref_path`).  Scalars are opaque (`other`). -/
 
-inductive RVal | inst (id : UInt32) | other
-  deriving DecidableEq, Repr, Inhabited
+inductive RVal
+  | inst (id : UInt32)
+  | other
+  | arr (dims : List (Int × Int)) (elems : List RVal)      -- `ArrayValue { dimensions, elements }`
+  | struct (fields : List (Bytes × RVal))                   -- `StructValue.fields`, declaration order
+  deriving Repr, Inhabited
 
 structure RInstance where
   id : UInt32
   fbKnown : Bool            -- `function_blocks` has the instance's type name
   vars : List RVal
-  deriving DecidableEq, Repr, Inhabited
+  deriving Repr, Inhabited
 
 structure RtView where
   programs : List Bytes
   globals : List RVal
   instances : List RInstance
+  deriving Repr, Inhabited
+
+/-! ### `memory.rs`: `array_offset_i64`, `read_by_ref_path`
+
+The code computes in `i64` / `i128`; the harness (and the repository's tests) run the dev profile,
+where an overflow is a panic.  The model computes in ℤ and answers `panic` whenever an intermediate
+result leaves the range of the type the code uses for it. -/
+
+def i64Min : Int := -9223372036854775808
+def i64Max : Int := 9223372036854775807
+def inI64 (x : Int) : Bool := decide (i64Min ≤ x) && decide (x ≤ i64Max)
+def i128Min : Int := -170141183460469231731687303715884105728
+def i128Max : Int := 170141183460469231731687303715884105727
+def inI128 (x : Int) : Bool := decide (i128Min ≤ x) && decide (x ≤ i128Max)
+
+/-- outcome of a lookup: a panic (arithmetic overflow), `None`, or `Some` -/
+inductive Lookup (α : Type)
+  | panic | none | some (a : α)
   deriving DecidableEq, Repr, Inhabited
+
+/-- the loop of `array_offset_i64` over `dimensions.iter().zip(indices).rev()`:
+the range test comes first, then `(*upper - *lower + 1) as i128` and `(index - *lower) as i128`
+(both `i64` operations), then the `i128` accumulation. -/
+def arrayOffsetLoop : List ((Int × Int) × Int) → Int → Int → Lookup Int
+  | [], offset, _ => .some offset
+  | ((lower, upper), index) :: rest, offset, stride =>
+    if index < lower ∨ index > upper then .none
+    else if !(inI64 (upper - lower) && inI64 (upper - lower + 1)) then .panic
+    else if !(inI64 (index - lower)) then .panic
+    else if !(inI128 ((index - lower) * stride) && inI128 (offset + (index - lower) * stride)) then .panic
+    else if !(inI128 (stride * (upper - lower + 1))) then .panic
+    else arrayOffsetLoop rest (offset + (index - lower) * stride) (stride * (upper - lower + 1))
+
+/-- `array_offset_i64` (`usize` is 64 bit) -/
+def arrayOffset (dims : List (Int × Int)) (indices : List Int) : Lookup Nat :=
+  if dims.length ≠ indices.length then .none else
+  match arrayOffsetLoop (dims.zip indices).reverse 0 1 with
+  | .panic => .panic
+  | .none => .none
+  | .some off => if 0 ≤ off ∧ off < 18446744073709551616 then .some off.toNat else .none
+
+/-- `read_by_ref_path` -/
+def readPath : RVal → List PathSeg → Lookup RVal
+  | v, [] => .some v
+  | .struct fields, .field name :: rest =>
+    match fields.find? (fun f => f.1 == name) with
+    | some f => readPath f.2 rest
+    | none => .none
+  | .arr dims elems, .index is :: rest =>
+    match arrayOffset dims (is.map toI64) with
+    | .panic => .panic
+    | .none => .none
+    | .some off =>
+      match elems[off]? with
+      | some e => readPath e rest
+      | none => .none
+  | _, _ :: _ => .none
 
 inductive ApplyErr
   | invalidBytecode (e : Err)
@@ -1552,6 +1613,7 @@ inductive ApplyErr
   | typeMismatch
   | nullReference
   | undefinedFunctionBlock
+  | panic                   -- not an error value: the call did not return (overflow in `read_by_ref`)
   deriving DecidableEq, Repr, Inhabited
 
 /-- What `apply_resource_metadata` did: the three `resize` requests (bytes) and the tasks that were
@@ -1562,15 +1624,15 @@ structure ApplyEffect where
   deriving DecidableEq, Repr, Inhabited
 
 /-- `Storage::read_by_ref` on an `RtView` (frames are empty between cycles) -/
-def readByRef (rt : RtView) (r : ValueRef) : Option RVal :=
+def readByRef (rt : RtView) (r : ValueRef) : Lookup RVal :=
   let root := match r.location with
     | .global => rt.globals[r.offset]?
     | .local _ => none
     | .instance id => (rt.instances.find? (fun i => i.id == id)).bind (fun i => i.vars[r.offset]?)
     | _ => none
   match root with
-  | none => none
-  | some v => if r.path.isEmpty then some v else none
+  | none => .none
+  | some v => readPath v r.path
 
 /-- `Runtime::validate_task` -/
 def validateTask (rt : RtView) (t : TaskConfig) : Except ApplyErr Unit := do
@@ -1583,12 +1645,13 @@ def validateTask (rt : RtView) (t : TaskConfig) : Except ApplyErr Unit := do
     | [] => .ok ()
     | r :: rest =>
       match readByRef rt r with
-      | some (.inst id) =>
+      | .some (.inst id) =>
         match rt.instances.find? (fun i => i.id == id) with
         | none => .error .nullReference
         | some inst => if inst.fbKnown then fbs rest else .error .undefinedFunctionBlock
-      | some .other => .error .typeMismatch
-      | none => .error .nullReference
+      | .some _ => .error .typeMismatch
+      | .none => .error .nullReference
+      | .panic => .error .panic
   fbs t.fbInstances
 
 /-- the task loop of `apply_resource_metadata` -/
